@@ -456,6 +456,11 @@ def checkCase (j : Json) : Except String Verdict := do
       if nonce == "" || !(issued.contains (slug, nonce)) then
         v := v.mon "C09" "callback_nonce_was_issued_by_start" idx s!"nonce '{nonce}'"
       issued := issued.filter (· != (slug, nonce))
+    -- C07: the callback returns the browser to the URI the state names, byte for byte — it never writes (or refreshes) a
+    -- signature of its own
+    if endpoint == "callback" && status == 302 && sessWrites.contains "save" then
+      if strD loc "raw" != strD (getJ ora "state") "redirect" then
+        v := v.mon "C07" "callback_returns_to_recorded_uri" idx s!"state names {strD (getJ ora "state") "redirect"}, Location is {strD loc "raw"}"
     -- C09/C10: the callback creates a session only with matching nonce and an IdP-vouched (verified) e-mail
     if endpoint == "callback" && sessWrites.contains "save" then
       let stj := getJ ora "state"
